@@ -1,0 +1,17 @@
+//go:build verif
+
+package sm2
+
+import "math/big"
+
+// VerifX1Hook, when set, replaces the x coordinate of [k]G inside SignHashed, so that the
+// arithmetic that follows (r = (e + x1) mod n, the r + k = n test, s) can be exercised at
+// values of x1 that cannot be reached by choosing k (for example x1 in [2n - 2^256, p)).
+var VerifX1Hook func(x *big.Int) *big.Int
+
+func verifX1(x *big.Int) *big.Int {
+	if VerifX1Hook != nil {
+		return VerifX1Hook(x)
+	}
+	return x
+}
